@@ -190,6 +190,8 @@ def run(ctx, R, tier):
                     return True
         return False
     muts = [(st, k) for st, t, k in stores_in(cd.node) if isinstance(t, ast.Subscript) and tbl_expr(t.value)]
+    # removal spelled as table.pop(key[, default])
+    muts += [(enclosing_stmt(c), "del") for c in walk_no_nested(cd.node) if isinstance(c, ast.Call) and isinstance(c.func, ast.Attribute) and c.func.attr == "pop" and tbl_expr(c.func.value)]
     if len(muts) < 2:
         raise AnalysisError("_clientDisconnect: table mutations vanished")
     for i, (st, k) in enumerate(muts):
